@@ -11,6 +11,7 @@ import (
 	"fmt"
 	"math/rand"
 	"os"
+	"runtime"
 	"strings"
 	"sync"
 	"sync/atomic"
@@ -65,6 +66,18 @@ func cmdRace(args []string) {
 		}
 		e := &Exec{}
 		e.Run(g.steps)
+		if *cold {
+			// the same objects built a second time and never looked at: their first observation happens concurrently
+			e2 := &Exec{Opts: ExecOpts{NoObserve: true}}
+			e2.Run(g.steps)
+			for i, x := range e2.Pool {
+				i, x := i, x
+				switch x.(type) {
+				case ast.ItemNode, *ast.DataMessage:
+					add(fmt.Sprintf("fresh%d.%d.obs", h, i), func() string { return e2.observe(x) })
+				}
+			}
+		}
 		for i, x := range e.Pool {
 			i, x := i, x
 			switch v := x.(type) {
@@ -117,6 +130,21 @@ func cmdRace(args []string) {
 			return s
 		})
 	}
+	// results kept while the parser is used again (by this goroutine and by the others): a result is the caller's
+	for i := range smlTexts {
+		t, u := smlTexts[i], smlTexts[(i+1)%len(smlTexts)]
+		add(fmt.Sprintf("smlkeep%d", i), func() string {
+			ms, errs, warns := sml.Parse(t)
+			sml.Parse(u)
+			runtime.Gosched()
+			sml.Parse(u)
+			s := fmt.Sprint(len(ms), errs, warns)
+			for _, m := range ms {
+				s += "|" + m.String()
+			}
+			return s
+		})
+	}
 	for i := 0; i < 20; i++ {
 		g := newGen(r, false, map[string]int{})
 		it := g.tree(treeOpts{depth: g.pick(3), maxLeaf: 20})
@@ -158,6 +186,11 @@ func cmdRace(args []string) {
 		got := make([][]string, *workers)
 		var parserOps []int
 		for i, op := range ops {
+			if strings.HasPrefix(op.name, "fresh") {
+				parserOps = append(parserOps, i)
+			}
+		}
+		for i, op := range ops {
 			if strings.HasPrefix(op.name, "sml") || strings.HasPrefix(op.name, "hsms") {
 				parserOps = append(parserOps, i)
 			}
@@ -171,9 +204,10 @@ func cmdRace(args []string) {
 			go func() {
 				defer wg.Done()
 				<-start
-				// the parsers first, every goroutine at the same moment, then everything else
+				// never-observed objects and the parsers first, every goroutine at the same moment (neighbouring
+				// goroutines start one operation apart, so each operation is run by several at once), then everything else
 				for k := 0; k < len(parserOps); k++ {
-					i := parserOps[(k+w)%len(parserOps)]
+					i := parserOps[(k+w%2)%len(parserOps)]
 					got[w][i] = safeCall(ops[i].run)
 				}
 				for k := 0; k < len(ops); k++ {
